@@ -29,7 +29,7 @@ from typing import Callable, Optional, List, Set, Tuple
 from .role import Role
 from .datatype import datatype
 from .visibility import Visibility
-from .connect import connectable
+from .connect import connectable, OrderedSet
 from .sliceable import sliceable
 from .concat import concatable
 from .props import Properties
@@ -112,7 +112,7 @@ class Signal:
         self._parent_module: Optional["Module"] = None
         self._slices: Set["Slice"] = set()
         self._concats: Set["Concat"] = set()
-        self._connected_ports: Set["PortRef"] = set()
+        self._connected_ports: Set["PortRef"] = OrderedSet()
 
         # Back-references to related signals
         self._related_clk_of: Set["Signal"] = set()
